@@ -224,6 +224,12 @@ func (h *Hist) afterStep(i int, op Op) {
 // oracles.  It returns whether the case was non-trivial by the C01-style
 // placement rule (callers may compute their own rule from Labels).
 func RunHistory(t TB, p *Program, o Oracles) *Hist {
+	return RunHistoryWith(t, p, o, nil)
+}
+
+// RunHistoryWith is RunHistory with a hook that configures the Env before
+// the collection is opened.
+func RunHistoryWith(t TB, p *Program, o Oracles, setup func(e *Env)) *Hist {
 	journal(p)
 	if dbg := os.Getenv("VERIF_DEBUGLOG"); dbg != "" {
 		f, _ := os.OpenFile(dbg, os.O_APPEND|os.O_CREATE|os.O_WRONLY, 0644)
@@ -231,6 +237,9 @@ func RunHistory(t TB, p *Program, o Oracles) *Hist {
 		f.Close()
 	}
 	e := NewEnv(t, p)
+	if setup != nil {
+		setup(e)
+	}
 	e.PersistErrFatal = o.PersistErrFatal
 	h := &Hist{Env: e, O: o, snaps: map[int]*snapHandle{}, iters: map[int]*iterHandle{}, touched: map[string][]int{}, childOnly: map[int]bool{}}
 	defer h.finish()
@@ -553,6 +562,9 @@ func (h *Hist) reopen(when string, op Op) {
 }
 
 func (h *Hist) final() {
+	if h.Prog.Prop == "C13" {
+		h.c13Final()
+	}
 	if h.O.Gauges && h.Cfg.Backing != "mem" && !h.closed && h.controlled {
 		// converse: with no new input the gauges reach zero within a few
 		// controller cycles
